@@ -67,7 +67,7 @@ CommitsOutput(ht, i, j) ==
 CommitsEdit(h, i, no, e) ==
   CASE e.k = "in" -> CommitsInput(h, i, e.j, e.f)
     [] e.k = "out" -> CommitsOutput(h, i, e.j)
-    [] e.k \in {"ver", "lock", "other-key"} -> TRUE
+    [] e.k \in {"ver", "lock", "other-key", "duplicate-sig"} -> TRUE     \* (a required key has not signed)
     [] e.k = "none" -> FALSE
     [] e.k \in {"append-in", "remove-last-in"} -> ~AnyoneCanPay(h)            \* the set of other inputs
     [] e.k = "append-out" -> BaseType(h) \notin {SIGHASH_NONE, SIGHASH_SINGLE}
